@@ -52,6 +52,21 @@ func (e *Engine) genDesc() *Desc {
 			classes[h] = cairo0Class(&hh)
 		}
 	}
+	if r.Chance(1, 6) {
+		// a Cairo-0 class that is already declared is listed again: juno keeps the first
+		// declaration height, and reverting this block must not remove the class
+		for i := range cairo0Fxs {
+			h := cairo0Fxs[i]
+			if _, ok := prev.Classes[h]; ok {
+				if _, now := classes[h]; !now {
+					diff.DeclaredV0Classes = append(diff.DeclaredV0Classes, &h)
+					classes[h] = cairo0Class(&h)
+					e.hit("diff:redeclare-cairo0")
+				}
+				break
+			}
+		}
+	}
 	if r.Chance(1, 3) {
 		fx := sierraFxs[r.Intn(len(sierraFxs))]
 		if _, ok := prev.Classes[fx.hash]; !ok {
